@@ -48,7 +48,8 @@ void harness(void)
 #elif defined(LL_pipe_read)
   int pipe = nondet_int();
   size_t size = nondet_ulong();
-  __CPROVER_assume(size >= 1 && size <= VERIF_MAX_BUF && IS_OPEN(pipe));
+  /* any size, 0 included (C02: "every read/write buffer size including 0") */
+  __CPROVER_assume(size <= VERIF_MAX_BUF && IS_OPEN(pipe));
   uint8_t *buffer = (malloc)(size);
   __CPROVER_assume(buffer != NULL);
 #include "gen/pre_pipe_read.inc"
@@ -61,7 +62,7 @@ void harness(void)
 #elif defined(LL_pipe_write)
   int pipe = nondet_int();
   size_t size = nondet_ulong();
-  __CPROVER_assume(size >= 1 && size <= VERIF_MAX_BUF && IS_OPEN(pipe));
+  __CPROVER_assume(size <= VERIF_MAX_BUF && IS_OPEN(pipe));
   uint8_t *buffer = (malloc)(size);
   __CPROVER_assume(buffer != NULL);
 #include "gen/pre_pipe_write.inc"
